@@ -265,7 +265,7 @@ static int parse_var(struct refm *r, int c, int v, const uint8_t *args, int alen
                 int term;
                 if (p >= alen || args[p] == 0) term = 0; else if (args[p] == ',') term = 1; else return -1;
                 p++;
-                r->arg_pos = (uint16_t)p;
+                r->arg_pos = (uint32_t)p;
                 r->dontcare_var = 0;
                 if (!ro) {
                         /* bytes after the terminator keep their old content */
@@ -343,7 +343,7 @@ static int parse_var(struct refm *r, int c, int v, const uint8_t *args, int alen
         }
         default: return -1;
         }
-        r->arg_pos = (uint16_t)(e + 1);
+        r->arg_pos = (uint32_t)(e + 1);
         return term;
 }
 
@@ -509,7 +509,7 @@ void ref_on_line(const uint8_t *line, int len)
                 s[n++] = line[i];
         }
         for (int i = n; i < len; i++) s[i] = 0;
-        r->line_n = (uint16_t)n;
+        r->line_n = (uint32_t)n;
         WS.lines_done++;
         if (n == 0) mcx_fatal("ref_on_line on blank line");
         if (up((char)s[0]) != 'A') { WS.drain_err++; finish_error(0); return; }
@@ -568,7 +568,7 @@ void ref_on_line(const uint8_t *line, int len)
                         type = CAT_CMD_TYPE_TEST;
                         WS.test_forms++;
                 } else {
-                        r->args_off = (uint16_t)i; r->args_len = (uint16_t)alen;
+                        r->args_off = (uint32_t)i; r->args_len = (uint32_t)alen;
                         if (alen > I.cap - 1) { WS.overlong++; finish_error(0); return; }   /* C06: rejected, not cut */
                 }
         }
